@@ -40,6 +40,12 @@ for _p in ("C05", "C01"):
     fixed("F34", _p, "7fb4d49", "C05.site-table|cursor-never-advances|delay_sizes", "after acf6026 the VM selected delay_sizes by the run-time ordinal of the delay: `if (c > 3.0) delay(100.0, c, 2.0) else delay(4.0, c, 2.0)` ran the else delay with ring length 100 on its 6-word cell (garbage samples on the VM, zeros on WASM); the size is now looked up by code position (findings/repro/F34_*.mmm)")
 for _p in ("C03", "C04"):
     fixed("F35", _p, "8d26740", "C03.guarded-index|guard|compiler::typing::InferContext::infer_type::{closure#3}|i-le-len", "`(1.0, 2.0).2`: the type checker's range test for tuple projection was `len < idx`, so idx == len indexed the element list and panicked (index out of bounds) on both back ends instead of reporting IndexOutOfRange (findings/repro/F35_*.mmm)")
+fixed("F36", "C04", "f16cbe2", "C04.occurs|arm|Function", "`fn f(x){ x(x) }`: occur_check combined the argument and result of a function type with `&&`, so `'a := ('a) -> 'b` was bound and the type checker overflowed the stack (both back ends) instead of reporting CircularType (findings/repro/F36_*.mmm)")
+fixed("F37", "C04", "c526c1f", "C04.occurs|arm|Code", "`#stage(macro) fn f(x){ f(lift(x)) }`: occur_check did not look into Code (nor Ref) types, `'a := Code('a)` overflowed the stack (findings/repro/F37_*.mmm)")
+fixed("F37", "C04", "c526c1f", "C04.occurs|arm|Ref", "same defect, Ref component")
+for _p in ("C03", "C04"):
+    fixed("F38", _p, "3143cfd", "C03.admission|anchor|EscapeOutsideCode", "`#stage(macro) fn f(x){ $x }`: an escape at stage 0 was accepted by the type checker (the stage saturates at 0), translate_stage0 left it in place and the MIR generator panicked in unreachable!(\"Macro code should be expanded before mirgen\") (findings/repro/F38_*.mmm)")
+fixed("F38", "C03", "3143cfd", "C03.belief|eliminated|Escape|compiler::translate_staging::translate_stage0", "same defect seen from the elimination table: the stage-0 arm for Escape hands the node back unchanged")
 fixed("F21", "C01", "52a554f", "C01.ops|truthiness|JmpIfNeg|F64Const+F64Gt", "`if` on a NaN condition took the then-branch on the VM (cond <= 0.0 test) and the else-branch on WASM (cond > 0.0)")
 
 # ---- C01 operator templates ---------------------------------------------------------------------------
